@@ -243,10 +243,25 @@ func C03(ctx *core.Ctx) {
 			}
 			return false
 		}
+		var cur *ssa.Function // the handler body being analysed
 		var rootFree func(v ssa.Value, depth int) ssa.Value
 		rootFree = func(v ssa.Value, depth int) ssa.Value {
 			if depth > 8 {
 				return nil
+			}
+			// a captured variable that is assigned once resolves to the enclosing
+			// function's value (ssax.Unbox): storage of the enclosing function is captured storage
+			switch sv := ssax.Strip(v).(type) {
+			case *ssa.Parameter:
+				if cur != nil && sv.Parent() != cur {
+					return sv
+				}
+			case ssa.Instruction:
+				if cur != nil && sv.Parent() != cur && cur.Parent() != nil {
+					if val, isVal := sv.(ssa.Value); isVal {
+						return val
+					}
+				}
 			}
 			if sv := ssax.Strip(v); isRecv(sv) {
 				if _, isAlloc := sv.(*ssa.Alloc); !isAlloc || depth > 1 {
@@ -285,6 +300,7 @@ func C03(ctx *core.Ctx) {
 				continue
 			}
 			bad := ""
+			cur = fn
 			ssax.Instrs(fn, func(in ssa.Instruction) {
 				switch x := in.(type) {
 				case *ssa.Store:
